@@ -131,8 +131,17 @@ func c03Years(c *ctx) {
 		var jds []float64
 		var l0 *calendar.Lunar
 		p, _ := try(func() {
-			jds = calendar.NewLunarYear(y).GetJieQiJulianDays()
+			held := calendar.NewLunarYear(y)
+			jds = append([]float64{}, held.GetJieQiJulianDays()...)
 			perturb(c, y)
+			// the year object the caller still holds, read again after tables of other years were built in between
+			calendar.NewLunarYear(y + 1 + c.rng.Intn(7))
+			h2 := [][]int{}
+			for _, v := range held.GetJieQiJulianDays() {
+				j, ms := projMs(v)
+				h2 = append(h2, []int{j, ms})
+			}
+			f["jdheld"] = h2
 			s, _ := safeSolar(y, 6, 15, 12, 0, 0)
 			l0 = s.GetLunar()
 		})
